@@ -234,3 +234,4 @@ A(V("c03-ttpush-signext", ["C03", "C15"], "ttLib/tables/ttProgram.py", "        
 A(V("c03-glyf-split-case", ["C03", "C19"], "ttLib/tables/_g_l_y_f.py", "                    existingGlyphFiles.add(glyphPath.lower())", "                    existingGlyphFiles.add(glyphPath)", "F25-name"))
 A(V("c08-distances-dropped", "C08", INS, "                mappedMax,\n                axisRange.distanceNegative,\n                axisRange.distancePositive,\n            )", "                mappedMax,\n            )", "DIST"))
 A(V("c04-woff2-head-before-loca", "C04", "ttLib/woff2.py", "            self._normaliseGlyfAndLoca(padding=4)\n        self._setHeadTransformFlag()\n", "            self._setHeadTransformFlag()\n            self._normaliseGlyfAndLoca(padding=4)\n", "W2-order"))
+A(V("c02-svg-signed-offset", ["C01", "C02"], "ttLib/tables/S_V_G_.py", '">HHLL", doc.startGlyphID', '">HHlL", doc.startGlyphID', "F1w"))
